@@ -7,8 +7,10 @@ require (
 	github.com/aukilabs/go-tooling v0.16.2
 	github.com/aukilabs/hagall v0.0.0
 	github.com/aukilabs/hagall-common v0.2.2
+	github.com/decred/dcrd/dcrec/secp256k1/v4 v4.3.0
 	github.com/ethereum/go-ethereum v1.14.13
 	github.com/prometheus/client_golang v1.20.5
+	golang.org/x/crypto v0.36.0
 	golang.org/x/net v0.38.0
 	google.golang.org/protobuf v1.36.2
 )
@@ -28,7 +30,6 @@ require (
 	github.com/segmentio/encoding v0.4.1 // indirect
 	go.opentelemetry.io/otel v1.33.0 // indirect
 	go.opentelemetry.io/otel/trace v1.33.0 // indirect
-	golang.org/x/crypto v0.36.0 // indirect
 	golang.org/x/sys v0.31.0 // indirect
 )
 
